@@ -90,7 +90,7 @@ def make_case(index, rng, tier):
     return {"family": fam, "app_load_delay": load_delay, "fine_workers_only": directed, "kind": kind, "workers": workers, "hups": hups, "clients": clients,
             "die": die,
             "wconn": rng.choice([1, 2, 10]) if kind in ("gevent", "eventlet") else 10,
-            "fine": fine, "fine_long": fine_long, "bind": rng.choice(["127.0.0.1:8000", "127.0.0.1:8000", "localhost:8000"]),
+            "fine": fine, "fine_long": fine_long, "bind": rng.choice(["127.0.0.1:8000", "127.0.0.1:8000", "localhost:8000", "unix:/run/g.sock"]),
             "graceful_timeout": rng.choice([2, 3, 4]), "threads": rng.randrange(1, 3),
             "buggify": {"pyticks": rng.randrange(3) == 0, "fork_child_first": rng.randrange(2) == 0, "spurious_select": rng.randrange(3) == 0,
                         "random_spawn_delay": rng.randrange(2) == 0, "short_recv": rng.randrange(4) == 0}}
@@ -115,6 +115,8 @@ def run(case, choices):
            "pidfile": "/run/g.pid"}
     scripts = {int(a): {"die_at": d[0], "die_how": ("exit", d[1])} for a, d in (case.get("die") or {}).items()}
     w = master.World(sim, cfg, scripts=scripts)
+    if str(case.get("bind", "")).startswith("unix:"):
+        w.addr = case["bind"][5:]          # the socket file is part of "the listening socket": a retiring worker must not take it along
     if fam == "full":
         w.cfgsrc.update({"threads": case["threads"], "keepalive": 0, "worker_connections": case.get("wconn", 10)})
         w.use_real_workers(case["kind"])
